@@ -160,7 +160,7 @@ Job gen_query(Src &s, Ctx &c, bool *nontriv) {
 }  // namespace
 
 static bool g_conc_only = false;
-bool vf_configure(Ctx &c) {
+bool vf_configure(Ctx &c) { g_errno_repoison = 1;
     if (c.mode != "C16") return false;
     c.deciding = FUNC | CRASH | HANG; c.noteonly = MEM | LEAK;
     if (!ref_selftest()) { fprintf(stderr, "reference Base64 encoder fails the RFC 4648 vectors\n"); exit(2); }
